@@ -39,6 +39,9 @@ class Baton:
         self.schedule = []  # names, one per scheduling decision that had a real choice or switched
         self.abort = False
         self.deadlock = False
+        self.livelock = None
+        self.line_events = 0
+        self.max_line_events = 40_000  # (ordinary runs stay below 1 000)
         self.trace_suffix = trace_file_suffix
         self.preempt_den = preempt_den
         self.switches = 0
@@ -69,6 +72,15 @@ class Baton:
 
         def local(frame, event, arg):
             if event == "line" and not sched.abort:
+                sched.line_events += 1
+                if sched.line_events > sched.max_line_events:
+                    # code in the traced file is spinning without ever returning to its event loop (no step cap of a loop can see that):
+                    # cut it here; the exception ends the spinning task, the run is reported as a live-lock by whoever looks at sched.livelock
+                    sched.livelock = (name, frame.f_code.co_name, frame.f_lineno)
+                    with sched.cv:
+                        sched.abort = True  # tear the whole run down: every loop iteration and every parked thread sees it
+                        sched.cv.notify_all()
+                    raise Abort()
                 sched.preempt_point(name)
             return local
 
